@@ -254,7 +254,8 @@ Fixpoint j_serialize (c : conv) (j : jvalue) {struct j} : gres (option str) :=
   | JInt z => Ok (Some (c_ser c None (PInt z)))
   | JFloat r => Ok (Some (c_ser c None (PFloat r)))
   | JList false l => ps <- parts l ;; Ok (Some (join [32] ps))
-  | JList true _ | JDict _ => Err EUnmodelled
+  | JList true _ => Err EConverter      (* converter.serialize(tuple): "No converter registered for `tuple`" *)
+  | JDict _ => Err EUnmodelled
   end.
 
 Definition default_value (var : xvar) : value :=
